@@ -594,6 +594,11 @@ namespace bluetoe {
                     return;
                 }
             }
+
+            // an indication that is not sent (the client has not subscribed, the value can not be read) will never be
+            // confirmed: do not wait for that confirmation
+            if ( pending.first == details::notification_queue_entry_type::indication )
+                connection.indication_confirmed();
         }
 
         out_size = 0;
